@@ -3384,6 +3384,68 @@ def hoist_walrus(tree):
     return count
 
 
+def boolean_tests(fn):
+    """N35: a test that holds a conditional expression with a constant truth value in one arm - what an inlined predicate
+    helper with an early `return False` / `return True` leaves behind - is rewritten with and / or / not and negations are
+    pushed inwards (De Morgan; `not a == b` becomes `a != b`, likewise is / in), so that `not (False if strict else e.c == own)`
+    reads `strict or e.c != own` again.  Only `if` / `while` tests are touched (truthiness is all that is observed there), and
+    only those that contain such a conditional expression."""
+    def is_bool_const(e):
+        return isinstance(e, ast.Constant) and isinstance(e.value, bool)
+
+    def has_target(e):
+        return any(isinstance(n, ast.IfExp) and (is_bool_const(n.body) or is_bool_const(n.orelse)) for n in ast.walk(e))
+
+    INV = {ast.Eq: ast.NotEq, ast.NotEq: ast.Eq, ast.Is: ast.IsNot, ast.IsNot: ast.Is, ast.In: ast.NotIn, ast.NotIn: ast.In}
+
+    def pos(e):
+        """e in a truth-value context"""
+        if isinstance(e, ast.IfExp) and (is_bool_const(e.body) or is_bool_const(e.orelse)):
+            a, b, c = e.test, e.body, e.orelse
+            if is_bool_const(b) and is_bool_const(c):
+                return pos(a) if b.value and not c.value else neg(a) if c.value and not b.value else ast.copy_location(ast.Constant(value=b.value), e)
+            if is_bool_const(b):
+                # (True if a else c) = a or c ; (False if a else c) = not a and c
+                return junction(ast.Or(), [pos(a), pos(c)], e) if b.value else junction(ast.And(), [neg(a), pos(c)], e)
+            # (b if a else True) = not a or b ; (b if a else False) = a and b
+            return junction(ast.Or(), [neg(a), pos(b)], e) if c.value else junction(ast.And(), [pos(a), pos(b)], e)
+        if isinstance(e, ast.UnaryOp) and isinstance(e.op, ast.Not):
+            return neg(e.operand)
+        if isinstance(e, ast.BoolOp):
+            return junction(e.op, [pos(v) for v in e.values], e)
+        return e
+
+    def neg(e):
+        if isinstance(e, ast.UnaryOp) and isinstance(e.op, ast.Not):
+            return pos(e.operand)
+        if isinstance(e, ast.BoolOp):
+            return junction(ast.Or() if isinstance(e.op, ast.And) else ast.And(), [neg(v) for v in e.values], e)
+        if isinstance(e, ast.Compare) and len(e.ops) == 1 and type(e.ops[0]) in INV:
+            return ast.copy_location(ast.Compare(left=e.left, ops=[INV[type(e.ops[0])]()], comparators=e.comparators), e)
+        if isinstance(e, ast.IfExp) and (is_bool_const(e.body) or is_bool_const(e.orelse)):
+            return neg(pos(e))
+        if is_bool_const(e):
+            return ast.copy_location(ast.Constant(value=not e.value), e)
+        return ast.copy_location(ast.UnaryOp(op=ast.Not(), operand=e), e)
+
+    def junction(op, vals, at):
+        flat = []
+        for v in vals:
+            if isinstance(v, ast.BoolOp) and type(v.op) is type(op):
+                flat.extend(v.values)
+            else:
+                flat.append(v)
+        return ast.copy_location(ast.BoolOp(op=op, values=flat), at)
+    k = 0
+    for n in _walk_fn(fn):
+        if isinstance(n, (ast.If, ast.While)) and has_target(n.test):
+            n.test = pos(n.test)
+            k += 1
+    if k:
+        ast.fix_missing_locations(fn)
+    return k
+
+
 def normalise(tree, modname, shape_all=None, keep=frozenset()):
     """normalise `tree` in place against the pinned shape of module `modname`; returns a log dict"""
     shape_all = shape_all if shape_all is not None else load_shape()
@@ -3429,6 +3491,8 @@ def normalise(tree, modname, shape_all=None, keep=frozenset()):
         pinned = shape["functions"].get(q)
         if pinned is None:
             continue
+        if boolean_tests(fn):
+            log.setdefault("boolean_tests", []).append(q)
         if pinned.get("ifexp", 0) == 0 and expand_dict_get(fn):
             log.setdefault("dict_get", []).append(q)
         if unroll_singleton_loops(fn):
